@@ -663,6 +663,7 @@ func c03Corpus(c *runner.Ctx, idx uint64) {
 		{"corpus:filter:", "filter(Ints, {# > 0})"}, {"corpus:map:", "map(Ints, {# * 2})"}, {"corpus:map-str:", "map(Items, {.Name})"},
 		{"corpus:filter-arg:", "FnInts(filter(Ints, {# > 0}))"}, {"corpus:map-arg:", "FnInts(map(Ints, {# + 1}))"},
 		{"corpus:uint-arg-arith:", "FnU8(A + 1)"}, {"corpus:uint-arg-arith:", "FnU8(1 + A)"},
+		{"", "FnPIt(nil)"}, {"", "FnPIt(PIt)"}, {"", "FnPIt(NilIt)"}, {"", "FnPIt(nil) + FnPIt(PIt)"}, {"", "S in MI"}, {"", "\"a\" in MI"}, {"", "{(S): 2}"}, {"", "{(S + \"k\"): A}.ak"}, {"", "EqAny(nil, 1)"}, {"", "FnAny(nil)"}, {"", "FnInts(nil)"},
 	}
 	for _, s := range sound {
 		c03Sound(c, s.src, styles, seeds, s.tag, false)
@@ -684,6 +685,45 @@ func c03Corpus(c *runner.Ctx, idx uint64) {
 		} else if o.Err != nil && ClassifyRunErr(o.Err) == ClsType {
 			c.Violate("corpus:named-scalar:type-failure", "an expression over a named scalar type (type MyInt int) is accepted and fails for a type reason: "+firstLine(o.Err.Error()),
 				map[string]interface{}{"source": src, "environment": "struct{MyI MyInt; MyS MyStr; A int}", "run": o.String()})
+		}
+	}
+	// a conditional with a nil arm under a result directive: whatever is
+	// accepted returns exactly the directive's type, for either branch
+	for _, d := range []struct {
+		name string
+		opt  expr.Option
+		want reflect.Type
+		srcs []string
+	}{
+		{"AsBool", expr.AsBool(), term.BoolT, []string{"P ? nil : true", "P ? true : nil", "Q ? nil : P", "P ? nil : nil"}},
+		{"AsInt64", expr.AsInt64(), int64T, []string{"P ? nil : 1", "Q ? A : nil"}},
+		{"AsFloat64", expr.AsFloat64(), float64T, []string{"P ? nil : 1.5", "P ? X : nil"}},
+	} {
+		for _, src := range d.srcs {
+			c.Begin(d.name + ": " + src)
+			p, co := SafeCompile(src, expr.Env(envs.Env{}), d.opt)
+			c.Eval(1)
+			if co.Failed() {
+				c.Count("nil_arm_directive_rejected", 1)
+				continue
+			}
+			for _, pv := range []bool{true, false} {
+				e := envs.New(&envs.Log{})
+				envs.Fill(e, 3, runner.NewRng(7))
+				e.P, e.Q = pv, pv
+				o := SafeRun(p, *e)
+				c.Eval(1)
+				c.Count("directive_results", 1)
+				if o.Panic != nil {
+					c.Violate("run-panic", fmt.Sprint(o.Panic), map[string]interface{}{"source": src, "directive": d.name})
+				} else if o.Err == nil && reflect.TypeOf(o.Val) != d.want {
+					c.Violate("directive-result-type:"+d.name+":nil-arm", fmt.Sprintf("%s accepted `%s` and the run returned %s", d.name, src, o),
+						map[string]interface{}{"source": src, "directive": d.name, "P": pv, "run": o.String()})
+				} else if o.Err != nil && ClassifyRunErr(o.Err) == ClsType {
+					c.Violate("directive-type-failure:"+d.name+":nil-arm", fmt.Sprintf("%s accepted `%s` and the run failed for a type reason: %s", d.name, src, firstLine(o.Err.Error())),
+						map[string]interface{}{"source": src, "directive": d.name, "P": pv, "run": o.String()})
+				}
+			}
 		}
 	}
 	// pointers to scalars and to collections
@@ -719,7 +759,10 @@ func c03Corpus(c *runner.Ctx, idx uint64) {
 	// mutants of the classes the repaired defects belonged to
 	for _, src := range []string{"FnS(1)", "FnI(X + X)", "FnI(S + S)", "FnS(1 + 2)", "FnB(-1)", "FnItem(3)", "FnS(-A)", "FnI(X * 2)", "P ? 1 : 2 + S", "1 + \"a\"", "not 1", "len(1)", "all(A, {true})", "filter(Ints, {1})", "Missing + 1", "It.Nope", "It.Nope()", "FnI()", "FnI(1, 2)", "A ? 1 : 2", "\"a\" < 1", "S and P", "1 .. 2.5",
 		"Ints[\"a\"]", "Ints[S]", "Strs[X]", "Items[P].ID", "MI[1]", "MI[A]", "MI[P]", "Ints[\"a\":]", "Ints[:X]", "(1..3)[S]", "Anys[P]", "[1, 2][1.5]",
-		"Half(A % 2)", "Half(7 % 2)", "FnF(A)", "FnF(len(Ints))", "FnF32(I64)", "FnI(X)", "FnI64(X * 2)", "FnU8(S)"} {
+		"Half(A % 2)", "Half(7 % 2)", "FnF(A)", "FnF(len(Ints))", "FnF32(I64)", "FnI(X)", "FnI64(X * 2)", "FnU8(S)",
+		// membership in a map needs a key-typed left operand; maps cannot be sliced; nil is not an int, string or bool argument; computed map keys are strings
+		"A in MI", "1 in MI", "A not in MI", "X in MI", "P in MI", "MI[0:1]", "MI[:]", "{\"a\": 1}[:]", "MA[1:]", "FnI(nil)", "A + FnI(nil)", "FnS(nil)", "FnB(nil)", "FnF(nil)", "FnItem(nil)", "FnII(1, nil)",
+		"{(1): 2}", "{(A): 2}", "{(P): 2}", "{(X): 1, \"b\": 2}"} {
 		c.Begin(src)
 		_, co := SafeCompile(src, expr.Env(envs.Env{}))
 		c.Eval(1)
